@@ -258,6 +258,7 @@ pub fn observe(input: &[u8], o: &Opts) -> Value {
     }
     let differing: std::cell::RefCell<Option<Vec<u8>>> = std::cell::RefCell::new(None);
     let differing_short: std::cell::RefCell<Option<Vec<u8>>> = std::cell::RefCell::new(None);
+    let differing_limited: std::cell::RefCell<Option<Vec<u8>>> = std::cell::RefCell::new(None);
     let r = guarded(|| -> Result<Value, Error> {
         let mut written = vec![];
         pkg.write(&mut Plain(&mut written))?;
@@ -268,6 +269,14 @@ pub fn observe(input: &[u8], o: &Opts) -> Value {
         // produced by writing the package" which the reported offsets have to describe
         let mut short = vec![];
         pkg.write(&mut Short(&mut short, 3))?;
+        // ... and into a device that is full one byte (or a hundred bytes) before the end: a write that reports success
+        // has produced bytes as well
+        for room in [written.len().saturating_sub(1), written.len().saturating_sub(100)] {
+            let mut lim = vec![];
+            if pkg.write(&mut Limited(&mut lim, room)).is_ok() && lim != written && differing_limited.borrow().is_none() {
+                *differing_limited.borrow_mut() = Some(lim);
+            }
+        }
         let short_equal = short == written;
         if !short_equal {
             *differing_short.borrow_mut() = Some(short);
@@ -383,6 +392,9 @@ pub fn observe(input: &[u8], o: &Opts) -> Value {
     if let Some(w) = differing_short.into_inner() {
         ev["written_short_bytes"] = json!(hex(&w));
     }
+    if let Some(w) = differing_limited.into_inner() {
+        ev["written_limited_bytes"] = json!(hex(&w));
+    }
     ev
 }
 
@@ -393,11 +405,13 @@ pub fn observe_all(input: &[u8], o: &Opts) -> Vec<Value> {
     let mut out = vec![];
     let w = ev.as_object_mut().and_then(|m| m.remove("written_bytes"));
     let ws = ev.as_object_mut().and_then(|m| m.remove("written_short_bytes"));
+    let wl = ev.as_object_mut().and_then(|m| m.remove("written_limited_bytes"));
     let off = ev.get("off").cloned();
     out.push(ev);
+    for (ws, label) in [(ws, "shortwrite"), (wl, "fulldevice")] {
     if let (Some(Value::String(h)), Some(off)) = (ws, off.clone()) {
         if let Ok(bytes) = ::hex::decode(h) {
-            let mut o2 = Opts::new(&format!("shortwrite:{}", o.origin));
+            let mut o2 = Opts::new(&format!("{label}:{}", o.origin));
             o2.off_mem = Some(rpm::PackageSegmentOffsets {
                 lead: off["lead"].as_u64().unwrap_or(0),
                 signature_header: off["sig"].as_u64().unwrap_or(0),
@@ -405,10 +419,11 @@ pub fn observe_all(input: &[u8], o: &Opts) -> Vec<Value> {
                 payload: off["payload"].as_u64().unwrap_or(0),
             });
             let mut e2 = observe(&bytes, &o2);
-            e2.as_object_mut().map(|m| { m.remove("written_bytes"); m.remove("written_short_bytes"); });
+            e2.as_object_mut().map(|m| { m.remove("written_bytes"); m.remove("written_short_bytes"); m.remove("written_limited_bytes"); });
             e2["content_len_mem"] = out[0]["content_len"].clone();
             out.push(e2);
         }
+    }
     }
     if let (Some(Value::String(h)), Some(off)) = (w, off) {
         if let Ok(bytes) = ::hex::decode(h) {
@@ -420,7 +435,7 @@ pub fn observe_all(input: &[u8], o: &Opts) -> Vec<Value> {
                 payload: off["payload"].as_u64().unwrap_or(0),
             });
             let mut e2 = observe(&bytes, &o2);
-            e2.as_object_mut().map(|m| m.remove("written_bytes"));
+            e2.as_object_mut().map(|m| { m.remove("written_bytes"); m.remove("written_short_bytes"); m.remove("written_limited_bytes"); });
             // the payload the writing object holds (the written bytes themselves may not parse)
             e2["content_len_mem"] = out[0]["content_len"].clone();
             out.push(e2);
